@@ -13,7 +13,7 @@ from props import c04, c05, c11
 
 ID = "C12"
 LEVEL = "exploration"
-BUDGET = {"quick": (8, 25), "thorough": (16, 400)}
+BUDGET = {"quick": (8, 25), "thorough": (16, 800)}
 K = 2
 RULE = ("Two generated families. compose: an Ocp with 1-3 generated stages (own model, method, grid, N, fixed/free horizon, objective with integrals of t-dependent integrands, constraints), a parent-level "
         "variable, coupling constraints (state continuity with parent variable, tf==t0) and parent objective; every stage is also built alone; decision vectors are transported stage-wise through variable "
